@@ -91,6 +91,18 @@ def run(ctx):
                     if rng.random() < 0.7:
                         pkg.media[name] = same
                         pkg.content_types["overrides"] = [o for o in pkg.content_types["overrides"] if o[0] != "/" + name] + [("/" + name, same_type)]
+            redacted = (i == 3)
+            if redacted:
+                # dedicated: a picture inside a run that the style map drops (`r.Redacted => !`), then a picture that stays: exactly ONE file, 1.gif
+                from mammoth.docx.xmlparser import element as X, text as XT
+                pkg = gen_xml.Package()
+                pkg.styles = [X("w:style", {"w:type": "character", "w:styleId": "Redacted"}, [X("w:name", {"w:val": "Redacted"})])]
+                pkg.media["word/media/image1.png"] = b"\x89PNG dropped with its run"
+                pkg.media["word/media/image2.gif"] = b"GIF89a kept"
+                pkg.rels = [("rIdA", "media/image1.png", B.REL + "image"), ("rIdB", "media/image2.gif", B.REL + "image")]
+                draw = lambda rid: X("w:drawing", {}, [X("wp:inline", {}, [X("a:graphic", {}, [X("a:graphicData", {}, [X("pic:pic", {}, [X("pic:blipFill", {}, [X("a:blip", {"r:embed": rid})])])])])])])
+                pkg.body = [X("w:p", {}, [X("w:r", {}, [X("w:rPr", {}, [X("w:rStyle", {"w:val": "Redacted"})]), X("w:t", {}, [XT("secret")]), draw("rIdA")]),
+                                          X("w:r", {}, [X("w:t", {}, [XT("public")]), draw("rIdB")])])]
             d = os.path.join(wd.path, "c%d" % i)
             os.makedirs(d)
             name = rng.choice(["in.docx", "Üñï çødé.docx", "two.dots.docx"])
@@ -99,10 +111,12 @@ def run(ctx):
             with open(path, "wb") as f:
                 f.write(data)
             mode = rng.choice(["path", "stdout", "output_dir"])
-            if i < 3:
+            if i < 3 or redacted:
                 mode = "output_dir"          # the image-file clauses are exercised in every run (see the dedicated documents above)
             fmt = rng.choice(["absent", "html", "markdown"])
             sm = rng.choice(STYLE_MAPS)
+            if redacted:
+                sm, fmt = "r.Redacted => !", "html"
             args = [common.PY, "-m", "mammoth.cli", path]
             outdir = os.path.join(d, "out")
             outpath = os.path.join(d, "result.out")
@@ -174,6 +188,8 @@ def run(ctx):
                     # --output-dir: one file per image, numbered from 1, named by the subtype, holding the exact bytes, referenced by src
                     from .c17 import expected_images
                     exp = [e for e in expected_images(pkg, {})]
+                    if redacted:
+                        exp = exp[1:]       # the first picture goes with its run
                     present = sorted(f for f in os.listdir(outdir) if not f.endswith(".html"))
                     files = [(f, open(os.path.join(outdir, f), "rb").read()) for f in present]
                     want = [("%d.%s" % (k + 1, str(ct).partition("/")[2]), bytes(b)) for k, (ct, b, alt) in enumerate(exp)]
